@@ -569,6 +569,16 @@ func c05UnconditionalRewrite(ctx *Ctx, r *Report, p passInfo, refFields []*types
 							continue
 						}
 					}
+					// `if v, ok := x.Hints[k].(T); ok`: presence-and-type test of the hint, equally structural
+					if init, ok := c.stmt.Init.(*ast.AssignStmt); ok && len(init.Rhs) == 1 {
+						if ta, ok := ast.Unparen(init.Rhs[0]).(*ast.TypeAssertExpr); ok {
+							if ix, ok := ast.Unparen(ta.X).(*ast.IndexExpr); ok {
+								if f := fieldOf(info, ix.X); f != nil && f.Name() == "Hints" {
+									continue
+								}
+							}
+						}
+					}
 					okc = false
 				}
 				cons := ctx.FuncName(fobj) + " rewrites " + exprString(lu)
